@@ -1,7 +1,7 @@
 """C14 Supply lanes, command lanes and agent-sent commands are never coalesced."""
-from mirlib import AnchorMissing, describe_call, describe_operand, describe_place, describe_rvalue, dom_guards, guards, _suffix_match
+from mirlib import op_place, AnchorMissing, describe_call, describe_operand, describe_place, describe_rvalue, dom_guards, guards, _suffix_match
 from rules import uplinks
-from rules.common import aggregates, callers_by_name, owner_def, where
+from rules.common import ty_of, aggregates, callers_by_name, owner_def, where
 
 META = {
     "explanation": (
@@ -166,14 +166,33 @@ def run(ctx):
         if len(ff) != 1:
             raise AnchorMissing("read_task: feed_frame")
         fl = [c for c in rd.calls if c.name == "flush" and rd.dominates(ff[0].block, c.block)]
-        nf = [(i, line, describe_rvalue(rd, rv)) for i, j, p, rv, line in rd.assigns() if not p[1] and rd.var_name(p[0]) == "needs_flush" and describe_rvalue(rd, rv).startswith("Option::Some(")]
+        # the "lane with unflushed commands" cell is the local handed to flush_lane as its `needs_flush` parameter (its own name is free to change)
+        NF = set()
+        for c in rd.calls:
+            if c.name == "flush_lane" and len(c.args) >= 2:
+                pl = op_place(c.args[1])
+                if pl is not None:
+                    NF.add(rd.resolve(pl).root)
+        nf = [(i, line, describe_rvalue(rd, rv)) for i, j, p, rv, line in rd.assigns() if not p[1] and p[0] in NF and describe_rvalue(rd, rv).startswith("Option::Some(")]
         r.check(bool(fl) and any(rd.dominates(ff[0].block, i) for i, _, _ in nf), "read_task/feed=>flush+remember", ff[0].loc(), "after a successful feed the sender is flushed and the lane is remembered in needs_flush",
                 "a fed command is not flushed / remembered")
         fls = [c for c in rd.calls if c.name == "flush_lane"]
         r.check(len(fls) >= 3, "read_task/flush_lane-sites", where(rd), "flush_lane is used in %d places (timeout, lane switch, stop)" % len(fls), "flush_lane sites: %d" % len(fls))
         # the lane-switch flush: a flush_lane call from which the feed_frame of the new envelope is reachable, and which
         # is reached before lanes.get_mut(id) of that envelope
-        gm = [c for c in rd.calls if c.name == "get_mut" and describe_operand(rd, c.args[0]).endswith("lanes") and rd.dominates(c.block, ff[0].block)]
+        gm = [c for c in rd.calls if c.name == "get_mut" and "sender::LaneSender" in ty_of(rd, c.args[0]) and rd.dominates(c.block, ff[0].block)]
+        def tests_nf(sb):
+            """the switch in block sb examines the needs_flush cell"""
+            t = rd.term(sb)
+            if t["k"] != "switch":
+                return False
+            si = rd.switch_info(sb)
+            pl = si.get("place") if si and si.get("kind") == "disc" else op_place(t["discr"])
+            if pl is None:
+                return False
+            if rd.resolve(pl).root in NF:
+                return True
+            return any((s_[0] == "local" and s_[1] in NF) or (s_[0] == "field" and s_[1].root in NF) for s_ in rd.sources(["c", pl]))
         sw = []
         for c in fls:
             if not (gm and rd.reaches(c.block, {gm[0].block}) and not rd.dominates(gm[0].block, c.block)):
@@ -188,8 +207,8 @@ def run(ctx):
                     loc = int(d[1:])
                     for i, j, p, rv, line in rd.assigns():
                         if p[0] == loc and not p[1] and describe_rvalue(rd, rv) == "True":
-                            okg = okg or any("needs_flush" in dd for dd, ll, _ in guards(rd, i))
-                elif "needs_flush" in d:
+                            okg = okg or any(tests_nf(blk_) for dd, ll, blk_ in guards(rd, i))
+                elif tests_nf(a):
                     okg = True
             if okg:
                 sw.append(c)
